@@ -757,7 +757,7 @@ pub fn run_c09(ctx: &mut Ctx) {
     let ni = ctx.budget(6, 60);
     for i in 0..ni {
         let w = ctx.rng.random_range(0..=4u64);
-        let n = [50u64, 3000, 20000][ctx.rng.random_range(0..3)];
+        let n = [50u64, 3000, 20000, 1 << 40][ctx.rng.random_range(0..4)];
         let k = ctx.rng.random_range(0..=10u64);
         ctx.case("pipeidle", &[w, n, k, i % 2]);
     }
